@@ -19,6 +19,8 @@ def run_property(pid, tier, seed, replay=None):
         prog = Program()
         mod = importlib.import_module("isoqlint.rules.%s" % pid.lower())
         mod.run(prog, ctx)
+        from .rules import common
+        common.run(prog, ctx, pid)
         if tier == "thorough":
             thorough = getattr(mod, "run_thorough", None)
             if thorough is not None:
